@@ -8,9 +8,9 @@ DECIDES = ('for remove_knot x {curve, surface u/v, volume u/v/w}: same block/dir
            'helpers.knot_removal runs the in-place algorithm A5.8 on a working copy: no element of the input array is read after the corresponding '
            'element of the working copy has been replaced - neither by a later removal step nor by the final shift (SS1) - and the result has '
            'n - num cells, every one a defined point of the input shape, for rows and for volume slabs (SK3). [ORDER TYPES, exact per type] helpers.knot_removal_kv returns the old knot vector without exactly num copies of the removed knot (KRM1). the [0, 1] parameter rejection is only evaluated for shapes with normalised knot vectors (RG1). the unweighted-points / weights views of rational shapes cannot survive the replacement of the net (IV1 restricted to these caches). the wrappers reach the operation on every normally returning path (WR1.always-delegates), optional coordinates are tested with `is None` (NONE1), the gathered control point view is re-read after the previous block replaced the net (GA1), and knot_removal_kv leaves its input knot vector untouched (PU1). [SKEL, abstract object] interpreted on an object created with normalize_kv=False, the named methods never reach utilities.check_params and hand the request on to the evaluator / operation (RG2: spelling-independent form of RG1). [SKEL, abstract objects] the whole operation interpreted on abstract curves, surfaces and volumes with index-labelled control points, ordered knots and a row helper of known effect: per requested direction and for all directions at once the net changes along the requested directions only, set_ctrlpts receives the new sizes in (u, v, w) order and every cell of the new flat list is the input cell at the mapped coordinates, the row helper receives the degree, row count and count of its direction, knot vectors of other directions are untouched, and no parameter value is used as a truth value (OPS2: spelling-independent form of AX3 / LY1 / LY2 / LY3 / GA1).')
-NOT_DECIDED = ('exactness of A5.8 beyond its dataflow: the alpha_i/alpha_j formulas, the removability test and its loop bound (an overrun of the '
-               'inner loop makes the test fail for removable knots - a numerical consequence), restoration of the original control points.')
+NOT_DECIDED = ('exactness of A5.8 outside the enumerated nets (degree 2 and 3, insert-then-remove histories at span interiors and at existing knots) and to floating-point rounding; knots that are removable without having been inserted by these histories; the tolerance of the removability test (decided with an exact-equality stand-in).')
 TECHNIQUE = 'axis-tag dataflow, stride rule in polynomial normal form, CFG dominance of guards, structural gather/scatter rules, bounded index-skeleton interpretation with working-copy tracking'
+DECIDES += (' [ABSTRACT INTERPRETATION, exact] KR3: helpers.knot_removal applied to a net in which u was inserted r times returns, for t = 1..r removals, exactly the net with r - t copies inserted (t = r: the original control points), as a polynomial identity in the control points over rational knots; the removability test is decided exactly. This decides Eqs. 5.28 / 5.29 (alpha_i, alpha_j with their removal-index offsets) and the final shift indices.')
 
 
 def kv_pure(m, run, key):
